@@ -93,6 +93,23 @@ pub trait Suite: RandomizedCiphersuite {
     ) -> frost_core::keys::PublicKeyPackage<Self> {
         pk.clone()
     }
+    /// Taproot only: the `*_with_tweak` entry points of frost-secp256k1-tr
+    fn tr_sign_with_tweak(
+        _package: &frost_core::SigningPackage<Self>,
+        _nonces: &frost_core::round1::SigningNonces<Self>,
+        _kp: &frost_core::keys::KeyPackage<Self>,
+        _root: Option<&[u8]>,
+    ) -> Option<Result<frost_core::round2::SignatureShare<Self>, frost_core::Error<Self>>> {
+        None
+    }
+    fn tr_aggregate_with_tweak(
+        _package: &frost_core::SigningPackage<Self>,
+        _shares: &std::collections::BTreeMap<frost_core::Identifier<Self>, frost_core::round2::SignatureShare<Self>>,
+        _pk: &frost_core::keys::PublicKeyPackage<Self>,
+        _root: Option<&[u8]>,
+    ) -> Option<Result<frost_core::Signature<Self>, frost_core::Error<Self>>> {
+        None
+    }
 }
 
 impl Suite for frost_ed25519::Ed25519Sha512 {
@@ -160,6 +177,22 @@ impl Suite for frost_secp256k1_tr::Secp256K1Sha256TR {
     ) -> frost_core::keys::PublicKeyPackage<Self> {
         use frost_secp256k1_tr::keys::Tweak;
         pk.clone().tweak(root)
+    }
+    fn tr_sign_with_tweak(
+        package: &frost_core::SigningPackage<Self>,
+        nonces: &frost_core::round1::SigningNonces<Self>,
+        kp: &frost_core::keys::KeyPackage<Self>,
+        root: Option<&[u8]>,
+    ) -> Option<Result<frost_core::round2::SignatureShare<Self>, frost_core::Error<Self>>> {
+        Some(frost_secp256k1_tr::round2::sign_with_tweak(package, nonces, kp, root))
+    }
+    fn tr_aggregate_with_tweak(
+        package: &frost_core::SigningPackage<Self>,
+        shares: &std::collections::BTreeMap<frost_core::Identifier<Self>, frost_core::round2::SignatureShare<Self>>,
+        pk: &frost_core::keys::PublicKeyPackage<Self>,
+        root: Option<&[u8]>,
+    ) -> Option<Result<frost_core::Signature<Self>, frost_core::Error<Self>>> {
+        Some(frost_secp256k1_tr::aggregate_with_tweak(package, shares, pk, root))
     }
 }
 
